@@ -270,10 +270,18 @@ def run(ctx: core.Ctx) -> core.Report:
     saved_uniform = _random.uniform
     _random.uniform = lambda a, b: a
     try:
-        for i in range(nlive):
+        ntiny = 26
+        for i in range(ntiny + nlive):
             rep.evaluations += 1
             r = rng.random()
-            if r < 0.15:
+            if i < ntiny:
+                # a well-formed SOME/IP message with every small payload length (too short for an SD message, or foreign),
+                # half of them followed by a valid SD message: one particular length must not be special (see C01)
+                tiny = H.SOMEIPHeader(service_id=rng.choice([0xFFFF, 0x1234]), method_id=0x8100, client_id=0, session_id=1,
+                                      interface_version=1, message_type=H.SOMEIPMessageType.NOTIFICATION, payload=gen.rbytes(rng, i)).build()
+                follow = sd_msg([C.Service(0x1111, 1, 1, 1).create_offer_entry(3)], 5, reboot=True, unicast=True) if i % 2 else b""
+                data, k = tiny + follow, "tiny:%d" % i
+            elif r < 0.15:
                 data, k = gen.rbytes(rng, rng.randrange(0, 200)), "raw"
             else:
                 base_entries = []
